@@ -40,18 +40,19 @@ const (
 	vcObject     // {} / {"x":1} for a scalar
 	vcArray      // [v] for a scalar
 	vcKindEdge   // the kind's own minimum / maximum
+	vcEmptyList  // an empty or nil value list where the unmarshaler takes the first of several values (WithFromArray)
 	vcNumClasses // sentinel
 )
 
 var vclassNames = [...]string{"absent", "null", "valid", "below-lo", "at-lo", "above-lo", "below-hi", "at-hi", "above-hi", "far",
 	"opt-out", "opt-in-out-of-range", "wrong-string", "wrong-bool", "cross-type", "non-canonical", "overflow", "negative", "fraction",
-	"empty-string", "object", "array", "kind-edge"}
+	"empty-string", "object", "array", "kind-edge", "empty-list"}
 
 func (c vclass) String() string { return vclassNames[c] }
 
 // perturbations tried by the random families (absent/null/valid are handled separately)
 var perturbClasses = []vclass{vcBelowLo, vcAtLo, vcAboveLo, vcBelowHi, vcAtHi, vcAboveHi, vcFar, vcOptOut, vcOptOutRng,
-	vcWrongStr, vcWrongBool, vcCross, vcNonCanon, vcOverflow, vcNegative, vcFraction, vcEmptyStr, vcObject, vcArray, vcKindEdge}
+	vcWrongStr, vcWrongBool, vcCross, vcNonCanon, vcOverflow, vcNegative, vcFraction, vcEmptyStr, vcObject, vcArray, vcKindEdge, vcEmptyList}
 
 func kindMin(k reflect.Kind) *big.Int {
 	lo, _ := intBounds(k)
@@ -540,6 +541,11 @@ func genLeaf(f *fieldD, cls vclass, e *entry, r *kit.Rand) (any, bool) {
 			return []any{v, v2}, true
 		}
 		return []any{v}, true
+	case vcEmptyList:
+		if !ctx.FromArray {
+			return nil, false
+		}
+		return emptyList(r), true
 	case vcKindEdge:
 		if !(isInt(k) || isUint(k)) {
 			return nil, false
@@ -556,6 +562,21 @@ func genLeaf(f *fieldD, cls vclass, e *entry, r *kit.Rand) (any, bool) {
 	return nil, false
 }
 
+// emptyList: a key that is present without any value - legal in an http.Header / url.Values
+// (plain maps of string lists) and in a decoded document.
+func emptyList(r *kit.Rand) any {
+	kit.Obs("empty_value_lists_generated", 1)
+	switch r.Intn(4) {
+	case 0:
+		return []string{}
+	case 1:
+		return []string(nil)
+	case 2:
+		return []any(nil)
+	}
+	return []any{}
+}
+
 // ---------------------------------------------------------------- type generation
 
 type typeGen struct {
@@ -566,6 +587,7 @@ type typeGen struct {
 	http     bool
 	maxDeep  int
 	inOptEmb bool // generating the members of an optional embedded struct: plain members only
+	noIgnore bool // no `-` keys (core/conf refuses a struct with two of them as a key conflict)
 }
 
 func (g *typeGen) newKey() string {
@@ -778,6 +800,14 @@ func (g *typeGen) genStruct(depth int, nmin, nmax int) *structD {
 			f.Elem = &fieldD{Kind: g.scalarKind()}
 			if compositeOK && !noMaps && r.Chance(0.2) {
 				f.Elem = &fieldD{Kind: reflect.Struct, Sub: g.genStruct(depth+1, 1, 3), Ptr: r.Pick(3, 1)}
+				// containers nested directly in the list: [][]T, [][]*T, []map[string]T
+				switch r.Pick(6, 2, 1) {
+				case 1:
+					f.Elem = &fieldD{Kind: reflect.Slice, Elem: f.Elem}
+				case 2:
+					f.Elem.Ptr = 0
+					f.Elem = &fieldD{Kind: reflect.Map, Elem: f.Elem}
+				}
 			} else if r.Chance(0.15) {
 				f.Elem.Ptr = 1
 			}
@@ -786,6 +816,9 @@ func (g *typeGen) genStruct(depth int, nmin, nmax int) *structD {
 			f.Elem = &fieldD{Kind: g.scalarKind()}
 			if compositeOK && r.Chance(0.2) {
 				f.Elem = &fieldD{Kind: reflect.Struct, Sub: g.genStruct(depth+1, 1, 3)}
+				if r.Chance(0.25) { // map[string][]T
+					f.Elem = &fieldD{Kind: reflect.Slice, Elem: f.Elem}
+				}
 			} else if r.Chance(0.1) {
 				f.Elem = &fieldD{Kind: reflect.Slice, Elem: &fieldD{Kind: g.scalarKind()}}
 			}
@@ -836,7 +869,7 @@ func (g *typeGen) genStruct(depth int, nmin, nmax int) *structD {
 			}
 		default:
 			g.decorate(f, sib)
-			if f.Kind == reflect.Slice && f.Elem.Kind != reflect.Struct && g.r.Chance(0.3) {
+			if f.Kind == reflect.Slice && f.Elem.scalar() && g.r.Chance(0.3) {
 				genSliceDefault(g.r, f)
 			}
 			single := !g.http
@@ -848,7 +881,7 @@ func (g *typeGen) genStruct(depth int, nmin, nmax int) *structD {
 				f.NoTag, f.Key = true, ""
 			case c == 2:
 				f.Key = "" // `json:",optional"`: the Go field name is the key
-			case c == 3:
+			case c == 3 && !g.noIgnore:
 				f.Ignore, f.Key = true, "-"
 			case c == 4:
 				f.Src = "other"
@@ -920,6 +953,17 @@ func (ig *inputGen) validElem(el *fieldD, e *entry, depth int) (any, bool) {
 			arr = append(arr, v)
 		}
 		return arr, true
+	case reflect.Map:
+		n := ig.r.Range(0, 2)
+		m := map[string]any{}
+		for i := 0; i < n; i++ {
+			v, ok := ig.validElem(el.Elem, e, depth)
+			if !ok {
+				return nil, false
+			}
+			m["m"+strconv.Itoa(i)] = v
+		}
+		return m, true
 	}
 	plain := &fieldD{Kind: el.Kind}
 	// list/map elements are never decoded through the `string` option or native kinds
@@ -1074,7 +1118,9 @@ func (ig *inputGen) perturb(sl slot, e *entry) {
 			}
 			ig.note(f, "->scalar-for-composite")
 		case 1:
-			if e.Ctx.AllFromString && e.Ctx.Name != "strvals" {
+			if e.Ctx.FromArray && r.Bool() {
+				sl.tree[k] = emptyList(r)
+			} else if e.Ctx.AllFromString && e.Ctx.Name != "strvals" {
 				sl.tree[k] = "[1,2]"
 			} else {
 				sl.tree[k] = []any{}
